@@ -89,3 +89,14 @@ Definition tpkt_write (msg : bytes) (s : schedule) : bytes * outcome unit * sche
 
 Definition x224_write (msg : bytes) (s : schedule) : bytes * outcome unit * schedule :=
   tpkt_write ([2; 240; 128] ++ msg) s.
+
+(* a HISTORY of writes on one client: tpkt::Client / Link keep no state between writes, so a history is the fold of the
+   single write over the sink's schedule; what reaches the sink is the concatenation of what each write emitted *)
+Fixpoint tpkt_writes (msgs : list bytes) (s : schedule) : list (bytes * outcome unit) * schedule :=
+  match msgs with
+  | [] => ([], s)
+  | m :: tl =>
+      let '(out, r, s') := tpkt_write m s in
+      let '(rs, s'') := tpkt_writes tl s' in
+      ((out, r) :: rs, s'')
+  end.
